@@ -125,7 +125,7 @@ def startup(ctx, db):
 def callback(ctx, db):
     rid = ctx.rule('C14.callback-enqueues-once', 'COUNT', 'the resume function of a GenCallback pushes exactly its own address into the completion queue exactly once; charge subscribes exactly this '
                    'callback to exactly its own generator\'s next step', floor=2)
-    lams = lambdas_of(db, 'cocls::_details::GenCallback::GenCallback')
+    lams = resume_bodies(db, 'cocls::_details::GenCallback::GenCallback')
     if not lams:
         raise Broken('GenCallback resume function not found')
     lf = lams[0]
